@@ -94,6 +94,8 @@ PROPS["C07"] = dict(
 )
 PROPS["C08"] = dict(
     bin="engine_sim", packages=["engine_sim"], args=["--prop", "C08"],
+    parts=[dict(bin="engine_sim", args=["--prop", "C08"], workers=12),
+           dict(bin="engine_sim", args=["--prop", "C08r"], workers=4)],
     quick_s=60, thorough_s=600, level="fault_enumeration", also=["C01", "C07"],
     rule=("per sampled run (program x history x grouping x drain points on DbBacked<SimKv>) EVERY prefix of the "
           "physical commit log is opened as a crash state by a fresh engine: recovered inputs must be exactly the "
@@ -102,7 +104,10 @@ PROPS["C08"] = dict(
           ">= 2 physical commits; distinct = hash of (program, history); crash prefixes are counted in totals"),
     components=DB_COMPONENTS,
     assumptions=COMMON_ASSUME + ["a process death leaves a prefix of the physical commits (commits are atomic in "
-                                 "the KvDatabase contract); kill -9 of real backends is a separate sub-check"],
+                                 "the KvDatabase contract)",
+                                 "real-backend part: the backends' own threads are not scheduled; the kill point is the "
+                                 "n-th write-behind hook event; RocksDB runs with its WAL disabled, so most kills recover "
+                                 "an empty store (legal, weak); Fjall's journal gives richer prefixes; see totals"],
 )
 
 PROPS["C02"] = dict(
